@@ -169,7 +169,9 @@ func runImplAll(p *Prop, cases []Case) []caseResult {
 		c := cases[i]
 		out := safeImpl(p, c)
 		var f *Failure
-		if p.Check != nil {
+		if isHang(out) {
+			f = &Failure{Key: "hang", Desc: fmt.Sprintf("the implementation did not return within %s on this case (non-termination)", caseTimeout())}
+		} else if p.Check != nil {
 			f = safeCheck(p, c, out)
 		}
 		res[i] = caseResult{c, out, f}
@@ -200,7 +202,38 @@ func runImplAll(p *Prop, cases []Case) []caseResult {
 	return res
 }
 
-func safeImpl(p *Prop, c Case) (out []string) {
+// caseTimeout bounds one Impl call: an operation of the real code that never returns
+// (e.g. a cycle in a corrupted pointer structure) must not hang the check.
+func caseTimeout() time.Duration {
+	if v := os.Getenv("VERIF_CASE_TIMEOUT_S"); v != "" {
+		if k, err := strconv.Atoi(v); err == nil && k > 0 {
+			return time.Duration(k) * time.Second
+		}
+	}
+	return 30 * time.Second
+}
+
+const hangWord = "hang: implementation did not return"
+
+func safeImpl(p *Prop, c Case) []string {
+	done := make(chan []string, 1)
+	go func() { done <- safeImplInner(p, c) }()
+	select {
+	case out := <-done:
+		return out
+	case <-time.After(caseTimeout()):
+		// the stuck goroutine cannot be killed; it is abandoned (the process exits at the end of the run)
+		out := make([]string, len(c.Lines))
+		for i := range out {
+			out[i] = hangWord
+		}
+		return out
+	}
+}
+
+func isHang(out []string) bool { return len(out) > 0 && out[0] == hangWord }
+
+func safeImplInner(p *Prop, c Case) (out []string) {
 	defer func() {
 		if r := recover(); r != nil {
 			out = make([]string, len(c.Lines))
@@ -458,7 +491,7 @@ func runCheck(ctx *Ctx) int {
 			}
 			if r.fail != nil && !seenKey[r.fail.Key] {
 				c := r.c
-				if !p.NoShrink {
+				if !p.NoShrink && r.fail.Key != "hang" {
 					fails := func(t Case) bool {
 						o := safeImpl(p, t)
 						f := safeCheck(p, t, o)
@@ -470,8 +503,11 @@ func runCheck(ctx *Ctx) int {
 						c = shrinkLines(c, fails)
 					}
 				}
-				o := safeImpl(p, c)
-				f := safeCheck(p, c, o)
+				o, f := r.out, r.fail
+				if r.fail.Key != "hang" {
+					o = safeImpl(p, c)
+					f = safeCheck(p, c, o)
+				}
 				if f == nil {
 					f = r.fail
 					c = r.c
@@ -484,7 +520,7 @@ func runCheck(ctx *Ctx) int {
 					mismatches++
 					if firstMismatch == nil {
 						c := r.c
-						if !p.NoShrink && p.Shrink == nil {
+						if !p.NoShrink && p.Shrink == nil && !isHang(r.out) {
 							c = shrinkLines(c, func(t Case) bool {
 								o := safeImpl(p, t)
 								m, err := RunOracle(verif, []Case{t})
